@@ -35,8 +35,8 @@ From RX.Proofs Require Import LexerProofs RejectProofs CstMain CstUMain.
 From RX.Proofs Require CstNsView CstFullMain CstFullS5 CstFullS6Main CstFullS6Embed5.
 From RX.Spec Require CstFullS4 CstFullS6.
 From RX.Proofs Require ApiViewAcc ApiView ApiViewProofs ApiViewCapstone.
-From RX.Spec Require CstFullS7 CstFullS8.
-From RX.Proofs Require CstFullS7Main CstFullS8Main.
+From RX.Spec Require CstFullS7 CstFullS8 CstFullS9.
+From RX.Proofs Require CstFullS7Main CstFullS8Main CstFullS9Main.
 Open Scope N_scope.
 
 (* ---- Proofs/CstMain.v ---- *)
@@ -151,8 +151,32 @@ Print Assumptions C03_s6_in_s7.
 
 End G3.
 
-(* ---- Proofs/CstFullS8Main.v ---- *)
+(* ---- Proofs/CstFullS9Main.v ---- *)
 Module G4.
+Import RX.Spec.CstFull. Import RX.Spec.CstFullS6. Import RX.Spec.CstFullS8. Import RX.Spec.CstFullS9. Import RX.Proofs.CstNsView. Import RX.Proofs.ApiView. Import RX.Proofs.CstFullS9Main.
+Theorem C03_parse_render_sem_full_s9 :
+  forall (d : S9.doc) (opt : options),
+  S9.wf_doc d = true ->
+  (S9.has_dtd d = true -> allow_dtd opt = true) ->                (* a DOCTYPE needs the option *)
+  N.of_nat (length (S9.sem d)) < nodes_limit opt ->               (* room for all nodes + the Root *)
+  N.of_nat (length (S9.sem d)) < u32_max ->                        (* of the MEANING: entities add nodes *)
+  N.of_nat (S9.nattrs d) < u32_max ->                              (* the attribute rows of the meaning *)
+  S9.distinct_decls_le d (N.to_nat 65535) ->                       (* at most 65535 distinct declared bindings *)
+  1 + N.of_nat (S9.ns_cost d) <= u32_max ->                        (* the namespace table fits *)
+  exists doc, parse (S9.render d) opt = Ok doc /\ view (S9.render d) doc = Some (S9.sem d).
+Proof. exact parse_render_sem_full_s9. Qed.
+Print Assumptions C03_parse_render_sem_full_s9.
+
+Theorem C03_s8_in_s9 :
+  forall d : S8.doc, S8.wf_doc d = true ->
+  S9.wf_doc d = true /\ S9.render d = S8.render d /\ S9.sem d = S8.sem d /\ S9.has_dtd d = S8.has_dtd d.
+Proof. exact s8_in_s9. Qed.
+Print Assumptions C03_s8_in_s9.
+
+End G4.
+
+(* ---- Proofs/CstFullS8Main.v ---- *)
+Module G5.
 Import RX.Spec.CstFull. Import RX.Spec.CstFullS6. Import RX.Spec.CstFullS7. Import RX.Spec.CstFullS8. Import RX.Proofs.CstNsView. Import RX.Proofs.ApiView. Import RX.Proofs.CstFullS8Main.
 Theorem C03_parse_render_sem_full_s8 :
   forall (d : S8.doc) (opt : options),
@@ -173,7 +197,7 @@ Theorem C03_s7_in_s8 :
 Proof. exact s7_in_s8. Qed.
 Print Assumptions C03_s7_in_s8.
 
-End G4.
+End G5.
 
 (* ---- Proofs/CstUMain.v ---- *)
 Theorem C03_render_valid_utf8 :
@@ -205,7 +229,7 @@ Proof. exact layout_insensitive_u. Qed.
 Print Assumptions C03_layout_insensitive_u.
 
 (* ---- Proofs/CstFullS6Main.v ---- *)
-Module G6.
+Module G7.
 Import RX.Spec.CstFull. Import RX.Spec.CstFullS4. Import RX.Spec.CstFullS6. Import RX.Proofs.CstNsView. Import RX.Proofs.CstFullS6Main.
 Theorem C03_parse_render_sem_full_s6 :
   forall (d : S6.doc) (opt : options),
@@ -239,10 +263,10 @@ Theorem C03_s4_in_s6 :
 Proof. exact s4_in_s6. Qed.
 Print Assumptions C03_s4_in_s6.
 
-End G6.
+End G7.
 
 (* ---- Proofs/CstFullS6Embed5.v ---- *)
-Module G7.
+Module G8.
 Import RX.Spec.CstFull. Import RX.Spec.CstFullS5. Import RX.Spec.CstFullS6. Import RX.Proofs.CstFullS6Main. Import RX.Proofs.CstFullS6Embed5.
 Theorem C03_s5_in_s6 :
   forall d : S5.doc, S5.wf_doc d = true ->
@@ -251,10 +275,10 @@ Theorem C03_s5_in_s6 :
 Proof. exact s5_in_s6. Qed.
 Print Assumptions C03_s5_in_s6.
 
-End G7.
+End G8.
 
 (* ---- Proofs/CstFullS5.v ---- *)
-Module G8.
+Module G9.
 Import RX.Spec.CstFull. Import RX.Spec.CstFullS5. Import RX.Proofs.CstNsView. Import RX.Proofs.CstFullMain. Import RX.Proofs.CstFullS5.
 Theorem C03_parse_render_sem_full_s5 :
   forall (d : S5.doc) (opt : options),
@@ -280,10 +304,10 @@ Theorem C03_prolog_insensitive_full_s5 :
 Proof. exact prolog_insensitive_full_s5. Qed.
 Print Assumptions C03_prolog_insensitive_full_s5.
 
-End G8.
+End G9.
 
 (* ---- Proofs/LexerProofs.v ---- *)
-Module G9.
+Module G10.
 Local Notation token := Tokenizer.token.
 Theorem C03_parse_comment_post :
   forall (text : bytes), forall s acc s' acc', SInv text s ->
@@ -370,10 +394,10 @@ Theorem C03_parse_element_tokens :
 Proof. exact parse_element_tokens. Qed.
 Print Assumptions C03_parse_element_tokens.
 
-End G9.
+End G10.
 
 (* ---- Proofs/RejectProofs.v ---- *)
-Module G10.
+Module G11.
 Local Notation token := Tokenizer.token.
 Theorem C03_ok_document_shape :
   forall text dtd toks,
@@ -394,4 +418,4 @@ Theorem C03_ok_no_text_before_root :
 Proof. exact ok_no_text_before_root. Qed.
 Print Assumptions C03_ok_no_text_before_root.
 
-End G10.
+End G11.
